@@ -521,7 +521,7 @@ Proof.
   intros H Hok Hat. simpl in H. apply body_inv in H.
   destruct H as [[_ [_ [_ H]]] | [M [fields0 [mixins [pfl [extra [Hres [Hrun [kept [Hk Hout]]]]]]]]]];
     [discriminate|].
-  destruct (resolve_ok_fuel _ _ _ _ _ _ Hres) as [f2 Ef]. subst fuel.
+  destruct (resolve_ok_fuel _ _ _ _ _ _ _ Hres) as [f2 Ef]. subst fuel.
   destruct (sels_ok_inv _ _ _ _ _ _ _ _ _ Hok) as [g' [fns [Eg [Hfl _]]]].
   pose proof (flatten_resolve_det _ _ _ _ _ _ _ _ _ Hfl Hres) as E. inversion E; subst fields0 mixins.
   assert (Hadd : add_typename_field at_ fns = fns).
